@@ -11,7 +11,7 @@ VARIABLES in, out, pc
 vars == <<in, out, pc>>
 BetasQ == {Q(1, 2), R(2)}
 BetasT == {Q(1, 4), R(1), R(2)}
-PctsQ == {Zero, Q(1, 4), Q(1, 2)}
+PctsQ == {Zero, Q(1, 64), Q(1, 4), Q(1, 2)}      \* 1/64: a small smoothing constant (k = 0.3125 on a 20 F band): the exponential underflows inside the probed range
 PctsT == {Zero, Q(1, 128), Q(1, 4), Q(3, 4)}
 Types == {"hdd_tidd_cdd_smooth", "hdd_tidd_cdd", "hdd_tidd_smooth", "tidd_cdd_smooth", "hdd_tidd", "tidd_cdd", "tidd"}
 C0 == R(10)
